@@ -6,6 +6,7 @@ so only values the real generator can produce appear (0.0, 2^-53, 0.5-ulp, 0.5,
 1-2^-53 are all legitimate outputs of random())."""
 import random
 import sys
+import threading
 
 import numpy as np
 
@@ -16,14 +17,30 @@ _NAMES = ("random", "uniform", "randint", "choice", "choices", "sample", "shuffl
           "expovariate", "seed")
 
 
+FOREIGN_DRAWS = []      # stack traces of draws made by a thread other than the main thread (diagnostics)
+
+
 class SeededRandom(random.Random):
     def __init__(self, seed=0):
         super().__init__(seed)
         self.draws = 0
+        self.tids = set()
 
     def random(self):
         self.draws += 1
+        self.tids.add(threading.get_ident())
+        if threading.current_thread() is not threading.main_thread() and len(FOREIGN_DRAWS) < 5:
+            import traceback
+            FOREIGN_DRAWS.append("".join(traceback.format_stack(limit=14)))
         return super().random()
+
+    def getrandbits(self, k):
+        self.draws += 1
+        self.tids.add(threading.get_ident())
+        if threading.current_thread() is not threading.main_thread() and len(FOREIGN_DRAWS) < 5:
+            import traceback
+            FOREIGN_DRAWS.append("getrandbits\n" + "".join(traceback.format_stack(limit=14)))
+        return super().getrandbits(k)
 
     def sample(self, population, k, **kw):
         res = super().sample(population, k, **kw)
